@@ -59,15 +59,73 @@ pub fn n_random(prop: &str, tier: u8) -> usize {
     }
 }
 
+/// C03 only: programs in which one location receives more stores than loom's store history holds (7). Beyond the
+/// window loom may lose allowed outcomes (C02 stops there), but what it returns must still be consistent.
+pub fn n_long(prop: &str, tier: u8) -> usize {
+    match (prop, tier) {
+        ("C03", 0) => 150,
+        ("C03", _) => 3000,
+        _ => 0,
+    }
+}
+
 pub fn total(prop: &str, tier: u8) -> usize {
     let core = if prop == "C01" { core_c01().len() } else { core_c02(tier).len() };
-    core + n_random(prop, tier)
+    core + n_random(prop, tier) + n_long(prop, tier)
+}
+
+fn long_history_prog(seed: u64, k: usize) -> Prog {
+    use Ord_::*;
+    let mut rng = Rng::new(seed, k as u64 ^ 0x10A6);
+    let nlocs = 1 + rng.below(2);
+    let writer_len = 6 + rng.below(2);
+    let mut writer = Vec::new();
+    for i in 0..writer_len {
+        writer.push(Op::Store { loc: 0, val: 10 + i as u64, ord: *rng.pick(&STORE_ORDS) });
+    }
+    if nlocs == 2 {
+        let pos = rng.below(writer.len() + 1);
+        writer.insert(pos, Op::Store { loc: 1, val: 5, ord: *rng.pick(&STORE_ORDS) });
+    }
+    let others = if rng.chance(1, 4) { 2 } else { 1 };
+    let mut threads = vec![Vec::new(); 1 + others];
+    let wt = rng.below(1 + others);
+    threads[wt] = writer;
+    let mut loads = 0;
+    for t in 0..threads.len() {
+        if t == wt {
+            continue;
+        }
+        let n = if others == 1 { 2 + rng.below(2) } else { 1 };
+        for j in 0..n {
+            let loc: u8 = if nlocs == 2 && rng.chance(1, 4) { 1 } else { 0 };
+            let op = match rng.below(6) {
+                0 | 1 if loads < 2 => {
+                    loads += 1;
+                    Op::Load { loc, ord: *rng.pick(&LOAD_ORDS) }
+                }
+                2 => Op::Store { loc, val: 100 + (t * 10 + j) as u64, ord: *rng.pick(&STORE_ORDS) },
+                3 => Op::Swap { loc, val: 200 + (t * 10 + j) as u64, ord: *rng.pick(&RMW_ORDS) },
+                4 => Op::FetchAdd { loc, add: 1000, ord: Rlx },
+                _ if loads < 2 => {
+                    loads += 1;
+                    Op::Load { loc, ord: Rlx }
+                }
+                _ => Op::Store { loc, val: 300 + (t * 10 + j) as u64, ord: Rlx },
+            };
+            threads[t].push(op);
+        }
+    }
+    Prog { nlocs, pre: vec![], threads }
 }
 
 pub fn prog_at(prop: &str, tier: u8, seed: u64, idx: usize) -> Prog {
     let core = if prop == "C01" { core_c01() } else { core_c02(tier) };
     if idx < core.len() {
         return core[idx].clone();
+    }
+    if idx >= core.len() + n_random(prop, tier) {
+        return long_history_prog(seed, idx - core.len() - n_random(prop, tier));
     }
     let mut rng = Rng::new(seed, (idx - core.len()) as u64 ^ fnv(prop));
     let a = Alpha { nlocs: 2, rmw: true, cas: true, fadd: true, fences: true, sc_only: false };
@@ -173,7 +231,9 @@ pub fn judge(prop: &str, p: &Prog, rec: &mut Rec, verbose: bool, tier: u8) {
                     rec.prog_json = serde_json::to_value(p).unwrap();
                     // first offending iteration as witness
                     let e0 = extra.iter().next().unwrap().clone();
-                    rec.v("forbidden_weak", "", format!("outcomes forbidden under the weakest reading: {} ; e.g. {:?} ; allowed: {}", fmt_set(&extra, 6), e0, fmt_set(&reference, 12)));
+                    // known finding: a location that receives more stores than loom's history window (7) holds
+                    let over = (0..p.nlocs as u8).any(|l| 1 + p.all_ops().filter(|o| o.loc() == Some(l) && o.is_write()).count() > 7);
+                    rec.v("forbidden_weak", if over { "location_receives_more_stores_than_the_store_history_holds" } else { "" }, format!("outcomes forbidden under the weakest reading: {} ; e.g. {:?} ; allowed: {}", fmt_set(&extra, 6), e0, fmt_set(&reference, 12)));
                 }
             }
             Err(Budget) => {
